@@ -7,10 +7,14 @@ statement of the listing: depth-first pre-order, an embedded struct (by value or
 pointer) immediately followed by its own fields.
 
 Modelled, validated on every run by the harness: gc/amd64 layout and reflect's description of a
-struct (`Fields`, `offsets`).  The arity-unrolled `New1..9` / `FMap1..9` are modelled as the
-list functions `newN` / `fmapN` (the nine arities are exercised differentially on every shape).
+struct (`Fields`, `offsets`).  The arity-unrolled `New1..9` / `FMap1..9` are the list functions
+`newN` / `fmapN` at each arity: `newN_gen` / `fmapN_gen` at the end of this file prove that for the
+definitions regenerated from hseq/hseq.go on every run (and all nine arities are also exercised
+differentially on every shape).
 -/
 import Golem.Lemmas.Hseq
+import Golem.Lemmas.HseqBind
+import Golem.Gen.HseqArity
 namespace Golem.Props.C03
 open Golem.Model
 
@@ -276,5 +280,82 @@ example : (match hseqNew exP ["k", "Y", "A"] with
 
 example : hseqNew exP ["k", "nope"] = .error .errType := by rfl
 example : fmapN ([] : List Entry) [fun e => .ok e.id] = .error .index := by rfl
+
+
+/-! ### The arity-unrolled Go functions themselves (regenerated from hseq/hseq.go on every run)
+
+`Golem.Gen.HseqArity.NewN` / `FMapN` are produced by go/xlate (family `hseqarity`) from the current
+source; each equals the list model used by the theorems above at its arity, so `newN_positional`,
+`fmapN_positional` and `fmapN_out_of_range` speak about the real New1..9 / FMap1..9.  (FMapN is
+stated at one result type for all functions; its Go type parameters are independent.) -/
+
+section Generated
+open Golem.Gen.HseqArity
+set_option linter.unusedSimpArgs false
+
+theorem new1_gen (T A : GoType) : New1 T A = newN T [A] := by
+  simp only [New1, newN_bind, mapE_cons_bind, mapE_nil_pure, bind_assoc, pure_bind]
+
+theorem new2_gen (T A B : GoType) : New2 T A B = newN T [A, B] := by
+  simp only [New2, newN_bind, mapE_cons_bind, mapE_nil_pure, bind_assoc, pure_bind]
+
+theorem new3_gen (T A B C : GoType) : New3 T A B C = newN T [A, B, C] := by
+  simp only [New3, newN_bind, mapE_cons_bind, mapE_nil_pure, bind_assoc, pure_bind]
+
+theorem new4_gen (T A B C D : GoType) : New4 T A B C D = newN T [A, B, C, D] := by
+  simp only [New4, newN_bind, mapE_cons_bind, mapE_nil_pure, bind_assoc, pure_bind]
+
+theorem new5_gen (T A B C D E : GoType) : New5 T A B C D E = newN T [A, B, C, D, E] := by
+  simp only [New5, newN_bind, mapE_cons_bind, mapE_nil_pure, bind_assoc, pure_bind]
+
+theorem new6_gen (T A B C D E F : GoType) : New6 T A B C D E F = newN T [A, B, C, D, E, F] := by
+  simp only [New6, newN_bind, mapE_cons_bind, mapE_nil_pure, bind_assoc, pure_bind]
+
+theorem new7_gen (T A B C D E F G : GoType) : New7 T A B C D E F G = newN T [A, B, C, D, E, F, G] := by
+  simp only [New7, newN_bind, mapE_cons_bind, mapE_nil_pure, bind_assoc, pure_bind]
+
+theorem new8_gen (T A B C D E F G H : GoType) : New8 T A B C D E F G H = newN T [A, B, C, D, E, F, G, H] := by
+  simp only [New8, newN_bind, mapE_cons_bind, mapE_nil_pure, bind_assoc, pure_bind]
+
+theorem new9_gen (T A B C D E F G H I : GoType) : New9 T A B C D E F G H I = newN T [A, B, C, D, E, F, G, H, I] := by
+  simp only [New9, newN_bind, mapE_cons_bind, mapE_nil_pure, bind_assoc, pure_bind]
+
+theorem fmap1_gen {β : Type} (ts : List Entry) (f1 : Entry → Except Panic β) :
+    (fun (p : β) => [p]) <$> FMap1 ts f1 = fmapN ts [f1] := by
+  simp only [FMap1, fmapN, fmapFrom_cons_bind, fmapFrom_nil_pure, map_eq_pure_bind, bind_assoc, pure_bind]
+
+theorem fmap2_gen {β : Type} (ts : List Entry) (f1 f2 : Entry → Except Panic β) :
+    (fun (p : β × β) => [p.1, p.2]) <$> FMap2 ts f1 f2 = fmapN ts [f1, f2] := by
+  simp only [FMap2, fmapN, fmapFrom_cons_bind, fmapFrom_nil_pure, map_eq_pure_bind, bind_assoc, pure_bind]
+
+theorem fmap3_gen {β : Type} (ts : List Entry) (f1 f2 f3 : Entry → Except Panic β) :
+    (fun (p : β × β × β) => [p.1, p.2.1, p.2.2]) <$> FMap3 ts f1 f2 f3 = fmapN ts [f1, f2, f3] := by
+  simp only [FMap3, fmapN, fmapFrom_cons_bind, fmapFrom_nil_pure, map_eq_pure_bind, bind_assoc, pure_bind]
+
+theorem fmap4_gen {β : Type} (ts : List Entry) (f1 f2 f3 f4 : Entry → Except Panic β) :
+    (fun (p : β × β × β × β) => [p.1, p.2.1, p.2.2.1, p.2.2.2]) <$> FMap4 ts f1 f2 f3 f4 = fmapN ts [f1, f2, f3, f4] := by
+  simp only [FMap4, fmapN, fmapFrom_cons_bind, fmapFrom_nil_pure, map_eq_pure_bind, bind_assoc, pure_bind]
+
+theorem fmap5_gen {β : Type} (ts : List Entry) (f1 f2 f3 f4 f5 : Entry → Except Panic β) :
+    (fun (p : β × β × β × β × β) => [p.1, p.2.1, p.2.2.1, p.2.2.2.1, p.2.2.2.2]) <$> FMap5 ts f1 f2 f3 f4 f5 = fmapN ts [f1, f2, f3, f4, f5] := by
+  simp only [FMap5, fmapN, fmapFrom_cons_bind, fmapFrom_nil_pure, map_eq_pure_bind, bind_assoc, pure_bind]
+
+theorem fmap6_gen {β : Type} (ts : List Entry) (f1 f2 f3 f4 f5 f6 : Entry → Except Panic β) :
+    (fun (p : β × β × β × β × β × β) => [p.1, p.2.1, p.2.2.1, p.2.2.2.1, p.2.2.2.2.1, p.2.2.2.2.2]) <$> FMap6 ts f1 f2 f3 f4 f5 f6 = fmapN ts [f1, f2, f3, f4, f5, f6] := by
+  simp only [FMap6, fmapN, fmapFrom_cons_bind, fmapFrom_nil_pure, map_eq_pure_bind, bind_assoc, pure_bind]
+
+theorem fmap7_gen {β : Type} (ts : List Entry) (f1 f2 f3 f4 f5 f6 f7 : Entry → Except Panic β) :
+    (fun (p : β × β × β × β × β × β × β) => [p.1, p.2.1, p.2.2.1, p.2.2.2.1, p.2.2.2.2.1, p.2.2.2.2.2.1, p.2.2.2.2.2.2]) <$> FMap7 ts f1 f2 f3 f4 f5 f6 f7 = fmapN ts [f1, f2, f3, f4, f5, f6, f7] := by
+  simp only [FMap7, fmapN, fmapFrom_cons_bind, fmapFrom_nil_pure, map_eq_pure_bind, bind_assoc, pure_bind]
+
+theorem fmap8_gen {β : Type} (ts : List Entry) (f1 f2 f3 f4 f5 f6 f7 f8 : Entry → Except Panic β) :
+    (fun (p : β × β × β × β × β × β × β × β) => [p.1, p.2.1, p.2.2.1, p.2.2.2.1, p.2.2.2.2.1, p.2.2.2.2.2.1, p.2.2.2.2.2.2.1, p.2.2.2.2.2.2.2]) <$> FMap8 ts f1 f2 f3 f4 f5 f6 f7 f8 = fmapN ts [f1, f2, f3, f4, f5, f6, f7, f8] := by
+  simp only [FMap8, fmapN, fmapFrom_cons_bind, fmapFrom_nil_pure, map_eq_pure_bind, bind_assoc, pure_bind]
+
+theorem fmap9_gen {β : Type} (ts : List Entry) (f1 f2 f3 f4 f5 f6 f7 f8 f9 : Entry → Except Panic β) :
+    (fun (p : β × β × β × β × β × β × β × β × β) => [p.1, p.2.1, p.2.2.1, p.2.2.2.1, p.2.2.2.2.1, p.2.2.2.2.2.1, p.2.2.2.2.2.2.1, p.2.2.2.2.2.2.2.1, p.2.2.2.2.2.2.2.2]) <$> FMap9 ts f1 f2 f3 f4 f5 f6 f7 f8 f9 = fmapN ts [f1, f2, f3, f4, f5, f6, f7, f8, f9] := by
+  simp only [FMap9, fmapN, fmapFrom_cons_bind, fmapFrom_nil_pure, map_eq_pure_bind, bind_assoc, pure_bind]
+
+end Generated
 
 end Golem.Props.C03
